@@ -212,6 +212,21 @@ def run(out: Outcome) -> None:
     for _ in range(3 * n_rand):
         p = gen.rand_params(rng, "RDDM")
         check_rddm(out, p, gen.bernoulli_stream(rng, rng.randint(20, 600 if thorough else 250)), runners)
+    # RDDM with a queue of more than 64 predictions that has wrapped around before the events (rebuild replays the stored predictions in arrival order)
+    for _ in range(40 if thorough else 16):
+        mc = rng.choice([70, 100, 129])
+        p = {"warning_level": rng.uniform(0.8, 1.8), "drift_level": rng.uniform(2.0, 2.6), "min_num_instances": rng.choice([5, 30]), "min_concept_size": mc,
+             "max_concept_size": rng.choice([200, 400, 40000]), "max_num_instances_warning": rng.choice([5, 30, 1400])}
+        xs = []
+        for seg in range(rng.randint(3, 5)):
+            pr = [0.05, 0.5, 0.1, 0.6, 0.2][seg % 5] if rng.random() < 0.7 else rng.choice([0.02, 0.3, 0.7])
+            L = rng.randint(mc + 10, 2 * mc + 40)
+            if rng.random() < 0.5 and xs:      # gradual change: a run of warnings before the drift (the queue is then kept whole, not cut to its last element)
+                pr0 = sum(xs[-30:]) / 30
+                xs += [1 if rng.random() < pr0 + (pr - pr0) * min(1.0, t / (L * 0.7)) else 0 for t in range(L)]
+            else:
+                xs += [1 if rng.random() < pr else 0 for _ in range(L)]
+        check_rddm(out, p, xs, runners)
     corr.compare_batch(out, runners)
 
 
